@@ -102,7 +102,7 @@ def is_variable(x):
 
 @is_variable.register(int)
 def _is_variable_int(x):
-    return type(x) is not int  # allow numpy types
+    return type(x) not in (int, bool)  # allow numpy types
 
 
 @is_variable.register(float)
